@@ -156,13 +156,13 @@ func (r *c21res) dump() string {
 // tracer: copies the resource-level content of every top-level group delta
 
 type c21appRec struct {
-	addr                      basics.Address
-	aidx                      basics.AppIndex
-	paramsSet, paramsDel      bool
-	global                    c21schema
-	pages                     uint64
-	localSet, localDel        bool
-	local                     c21schema
+	addr                 basics.Address
+	aidx                 basics.AppIndex
+	paramsSet, paramsDel bool
+	global               c21schema
+	pages                uint64
+	localSet, localDel   bool
+	local                c21schema
 }
 
 type c21assetRec struct {
@@ -285,9 +285,9 @@ const c21workerSource = `
 `
 
 type c21world struct {
-	t     *testing.T
-	proto config.ConsensusParams
-	l     *Ledger
+	t                               *testing.T
+	proto                           config.ConsensusParams
+	l                               *Ledger
 	rich, target, other, sink, pool basics.Address
 	asset                           basics.AssetIndex
 	appL1, appLmax, worker          basics.AppIndex
@@ -951,8 +951,10 @@ func TestVerif_C21(t *testing.T) {
 			}
 			return en, err
 		},
-		Key:      func(s *c21sys) string { return s.key() },
-		Observe:  func(s *c21sys) string { return fmt.Sprintf("T{%s} W{%s}", s.resOf(w.target).dump(), s.resOf(w.worker.Address()).dump()) },
+		Key: func(s *c21sys) string { return s.key() },
+		Observe: func(s *c21sys) string {
+			return fmt.Sprintf("T{%s} W{%s}", s.resOf(w.target).dump(), s.resOf(w.worker.Address()).dump())
+		},
 		MaxDepth: maxDepth,
 	}
 	res := q.Explore(r)
